@@ -295,6 +295,43 @@ def c10b_or_plain_alt(i1: int, i2: int, use_neg: bool) -> bool:
     return r.bindings["x"] is v["a"] and r.bindings["y"] is v["b"]
 
 
+# ---------------------------------------------------------------- class 11: pattern returns ONE output of a two-output node
+def _p11(k):
+    def pat(op, x):
+        c = op.Neg(x)
+        a, b = op.Split(c, _outputs=2)
+        return a if k == 0 else b
+    return pat
+
+
+P11 = [RR.Pattern(_p11(0)), RR.Pattern(_p11(1))]
+OPS11 = OPS + ["Split"]
+
+
+def c11_one_of_two_outputs(i1: int, i2: int, k: int, other_used: bool, other_is_output: bool, inner_used: bool) -> bool:
+    """the node's other output is not a pattern output: the match is removable only if it has no use outside the match and is
+    not a graph output (same for the inner value c)
+    vp-pre: 0 <= i1 < 5 and 0 <= i2 < 6 and 0 <= k < 2
+    """
+    spec = [("", OPS[i1], ["a"], [], 1), ("", OPS11[i2], ["v0"], [], 2)]
+    mine, other = ("v1", "v1_1") if k == 0 else ("v1_1", "v1")
+    outs = [mine]
+    if other_used:
+        spec.append(("", "Abs", [other], [], 1))
+        outs.append("v2")
+    if inner_used:
+        spec.append(("", "Relu", ["v0"], [], 1))
+        outs.append(f"v{len(spec) - 1}")
+    if other_is_output:
+        outs.append(other)
+    m, g, n, v = mk(spec, ["a"], outs)
+    r = P11[k].match(m, g, n[1])
+    expected = OPS[i1] == "Neg" and OPS11[i2] == "Split" and not other_used and not other_is_output and not inner_used
+    if bool(r) != expected:
+        return False
+    return (not r) or r.bindings["x"] is v["a"]
+
+
 def _ob(name, timeout=200, bounds="", tt=None, slice_=None):
     if slice_ is not None:
         var, n = slice_
@@ -321,4 +358,5 @@ OBLIGATIONS = [
     *_ob("c3_const", 300, "constant value: bounded symbolic index into 12 edge values around rel_tol 1e-5 / abs_tol 1e-8, rank 0..2, const / graph-input flags", slice_=("i2", 5)),
     _ob("c4_attrs", 300), _ob("c5_inputs"), _ob("c6_or", 300), _ob("c7_two_outputs"), _ob("c8_commute", 400),
     *_ob("c9_three", 300, tt=900, slice_=("i0", 5)), _ob("c10_or_shared_var", 300), _ob("c10b_or_plain_alt", 300),
+    _ob("c11_one_of_two_outputs", 300, "host leaves symbolic: op-type indices, which of the two outputs the pattern returns, whether the other output / the inner value is used outside or is a graph output"),
 ]
